@@ -487,11 +487,27 @@ func (r *rewriter) rewriteFile() ([]byte, error) {
 		return true
 	})
 	var buf bytes.Buffer
-	buf.WriteString("//go:build go1.21\n\n// Code generated by gosim/rewrite from " + filepath.Base(r.fset.Position(r.file.Pos()).Filename) + "; DO NOT EDIT.\n\n")
+	// Generics need language version 1.18+: raise it per file for old modules
+	// (go1.21 keeps the pre-1.22 loop-variable semantics such modules were written
+	// for); modules that already are at 1.21 or later keep their own version.
+	if r.needsLangBump() {
+		buf.WriteString("//go:build go1.21\n\n")
+	}
+	buf.WriteString("// Code generated by gosim/rewrite from " + filepath.Base(r.fset.Position(r.file.Pos()).Filename) + "; DO NOT EDIT.\n\n")
 	if err := (&printer.Config{Mode: printer.UseSpaces | printer.TabIndent, Tabwidth: 8}).Fprint(&buf, r.fset, r.file); err != nil {
 		return nil, err
 	}
 	return buf.Bytes(), nil
+}
+
+func (r *rewriter) needsLangBump() bool {
+	m := r.pkg.Module
+	if m == nil || m.GoVersion == "" {
+		return true
+	}
+	var maj, min int
+	fmt.Sscanf(m.GoVersion, "%d.%d", &maj, &min)
+	return maj == 1 && min < 21
 }
 
 func (r *rewriter) postCall(c *astutil.Cursor, n *ast.CallExpr) {
